@@ -410,6 +410,59 @@ fn concurrent_reads<S: Source + Sync>(src: &S, t: &Tree, label: &str, bad: &mut 
     n.into_inner()
 }
 
+/// members far larger than any internal buffer (decoder chunks of 32 KiB, pipe sizes): every source
+/// must hand back exactly the stored bytes.  Judged here (byte equality with what was stored);
+/// the contents are too long to be worth printing as Coq terms.
+fn large_members(base: &Path, rng: &mut Rng, bad: &mut Vec<String>) -> u64 {
+    let noise = |rng: &mut Rng, n: usize| -> Vec<u8> { (0..n).map(|_| rng.below(256) as u8).collect() };
+    let t = Tree {
+        files: vec![
+            (vec!["big".into(), "noise40k".into()], "bin".into(), noise(rng, 40_000)),
+            (vec!["big".into(), "noise200k".into()], "bin".into(), noise(rng, 200_000)),
+            (vec!["big".into(), "text".into()], "txt".into(), b"all work and no play ".iter().cycle().take(300_000).copied().collect()),
+            (vec!["small".into()], "x".into(), b"7".to_vec()),
+            (vec!["edge32k".into()], "bin".into(), noise(rng, 32 * 1024 + 1)),
+        ],
+        dirs: vec![vec![], vec!["big".into()]],
+    };
+    let mut n = 0;
+    let mut check = |label: &str, src: &dyn Source, bad: &mut Vec<String>| {
+        for (id, ext, bytes) in &t.files {
+            n += 1;
+            let sid = id.join(".");
+            match src.read(&sid, ext) {
+                Ok(c) if c.as_ref() == &bytes[..] => {}
+                Ok(c) => {
+                    let got = c.as_ref();
+                    let common = got.iter().zip(bytes.iter()).take_while(|(a, b)| a == b).count();
+                    bad.push(format!("{label}: read of {sid}.{ext} gave {} bytes, stored {} bytes, common prefix {common}", got.len(), bytes.len()));
+                }
+                Err(e) => bad.push(format!("{label}: read of {sid}.{ext} ({} bytes) failed: {e}", bytes.len())),
+            }
+        }
+    };
+    let root = base.join("large");
+    materialize_fs(&t, &root);
+    check("filesystem", &FileSystem::new(&root).unwrap(), bad);
+    for deflate in [false, true] {
+        let o = ArchiveOpts { deflate, order: 0, dir_members: 0, dot_prefix: false };
+        let (ms, _) = members(&t, o, rng);
+        let zb = zip_bytes(&ms, o);
+        check(if deflate { "zip (deflated)" } else { "zip (stored)" }, &Zip::from_bytes(zb.clone()).unwrap(), bad);
+        let zp = base.join(format!("large{}.zip", deflate as u8));
+        std::fs::write(&zp, &zb).unwrap();
+        check(if deflate { "zipfile (deflated)" } else { "zipfile (stored)" }, &Zip::open(&zp).unwrap(), bad);
+        if !deflate {
+            let tb = tar_bytes(&ms);
+            check("tar", &Tar::from_bytes(tb.clone()).unwrap(), bad);
+            let tp = base.join("large.tar");
+            std::fs::write(&tp, &tb).unwrap();
+            check("tarfile", &Tar::open(&tp).unwrap(), bad);
+        }
+    }
+    n
+}
+
 fn tree_of_fs(root: &Path) -> Tree {
     let mut t = Tree { files: vec![], dirs: vec![vec![]] };
     fn walk(t: &mut Tree, dir: &Path, at: Vec<String>) {
@@ -528,6 +581,7 @@ pub fn run(a: &Args) {
             }
         }
     }
+    let large_reads = large_members(&base, &mut rng, &mut iter_bad);
     let _ = std::fs::remove_dir_all(&base);
     drop(push);
     for (coq, json, nt) in arch {
@@ -550,12 +604,13 @@ pub fn run(a: &Args) {
     std::fs::write(
         format!("{}/srcdiff.summary.json", a.out),
         format!(
-            "{{\"engine\": \"srcdiff\", \"explain\": {{\"src_cases\": \"src_explain\", \"arch_cases\": \"arch_explain\"}}, \"evaluations\": {}, \"distinct_nontrivial\": {}, \"samples\": {}, \"distribution\": {{\"sources\": {}, \"concurrent_reads\": {}}}}}",
+            "{{\"engine\": \"srcdiff\", \"explain\": {{\"src_cases\": \"src_explain\", \"arch_cases\": \"arch_explain\"}}, \"evaluations\": {}, \"distinct_nontrivial\": {}, \"samples\": {}, \"distribution\": {{\"sources\": {}, \"concurrent_reads\": {}, \"large_member_reads\": {}}}}}",
             cases.total(),
             cases.distinct_nontrivial(),
             cases.samples_json(),
             jmap(&labels),
-            conc_reads
+            conc_reads,
+            large_reads
         ),
     )
     .unwrap();
